@@ -6,6 +6,7 @@ WORLDS = {
     "uni(q1)": lambda: catalog.uni_world("q1"),
     "uni(xq)": lambda: catalog.uni_xq_world(),
     "aave": lambda: catalog.aave_world(),
+    "deribit": lambda: catalog.deribit_world(),
     "squeeth(eq)": lambda: catalog.squeeth_world("eq"),
     "squeeth(ne)": lambda: catalog.squeeth_world("ne"),
 }
